@@ -116,12 +116,12 @@ theorem C08_transform_merc_sphere (w A B : SR ℝ)
     ∃ qx qy x2 y2, transform w A B x y = .ok (qx, qy) ∧ transform w B A qx qy = .ok (x2, y2) ∧
       |x2 - x| ≤ 1e-19 * |x| ∧ |y2 - y| ≤ 1e-19 * |y| := by
   -- the constructor over ℝ: no NaN, so the record is unchanged and K0 = cos lat_ts
-  have hinit : initMerc B = .ok ⟨B, cos B.latTS⟩ := by
-    simp [initMerc, hBs]
-  have hT : transformers B = .ok (fwdMerc ⟨B, cos B.latTS⟩, invMerc ⟨B, cos B.latTS⟩) := by
+  have hinit : initMerc B = .ok ⟨B, sqrt (1 - B.b / B.a * (B.b / B.a)), cos B.latTS⟩ := by
+    simp [initMerc, hBs, lit_one]
+  have hT : transformers B = .ok (fwdMerc ⟨B, sqrt (1 - B.b / B.a * (B.b / B.a)), cos B.latTS⟩, invMerc ⟨B, sqrt (1 - B.b / B.a * (B.b / B.a)), cos B.latTS⟩) := by
     simp [transformers, hBn, hinit, bind, Except.bind, pure, Except.pure]
-  have hinv := C08_merc_sphere_inv ⟨B, cos B.latTS⟩ hBs ha hk _ _ hlat hlon hdl
-  cases hf : fwdMerc ⟨B, cos B.latTS⟩ (x * deg2rad + A.fromGreenwich - B.fromGreenwich) (y * deg2rad) with
+  have hinv := C08_merc_sphere_inv ⟨B, sqrt (1 - B.b / B.a * (B.b / B.a)), cos B.latTS⟩ hBs ha hk _ _ hlat hlon hdl
+  cases hf : fwdMerc ⟨B, sqrt (1 - B.b / B.a * (B.b / B.a)), cos B.latTS⟩ (x * deg2rad + A.fromGreenwich - B.fromGreenwich) (y * deg2rad) with
   | error e => rw [hf] at hinv; simp [Except.bind] at hinv
   | ok q =>
     rw [hf] at hinv
